@@ -1,5 +1,7 @@
 """C14 — modules expose exactly what they provide and are instantiated once.
 
+translate  : translate/c14_constants.py regenerates lean/SteelVerif/C14/GenConsts.lean from modules.rs / mangle.rs
+             (mangling constants, prefix layout, "the module key is the canonical path": try_canonicalize).
 prove      : lake build SteelVerif.C14.Props + axiom audit (mangling injective and not writable in source
              text, require modifiers, visibility = provided-and-surviving, instantiation machine for every
              request sequence over every acyclic graph).
@@ -14,6 +16,7 @@ oracle     : S (per-module environments, modifiers composed, every body evaluate
              (corpus d01-d04) must equal S now and are VIOLATIONs if they come back.
 """
 import itertools
+import json
 import os
 import random
 import re
@@ -57,7 +60,9 @@ META = {
 
 VAL_NAMES = ["x", "y", "z", "w", "p"]
 FN_NAMES = ["f", "g"]
-NAMES = VAL_NAMES + FN_NAMES
+HOF_NAMES = ["h2", "h3", "h4", "h6"]     # h<n>: n parameters, the first one a callback (contract (->/c int? int?))
+NAMES = VAL_NAMES + FN_NAMES + HOF_NAMES
+DIRS = ["", "", "sub", "sub/deep", "lib"]
 PREFIXES = ["a.", "b-", "q."]
 VAL_ALIASES = ["xx", "yy", "r1"]
 FN_ALIASES = ["ff", "g2"]
@@ -77,7 +82,7 @@ LEGACY = {
 
 def spec_text(s):
     if s[0] == "path":
-        return str(s[1])
+        return str(s[1]) if len(s) < 3 or not s[2] else "%d~%d" % (s[1], s[2])
     if s[0] == "p":
         return "p:%s:%s" % (s[1], spec_text(s[2]))
     ids = ",".join(a if b is None else "%s=%s" % (a, b) for a, b in s[1])
@@ -92,6 +97,8 @@ def case_text(c):
     out = ["case %s" % c["id"]]
     for k, m in enumerate(c["mods"]):
         out.append("module %d" % k)
+        if m.get("dir"):
+            out.append("dir %s" % m["dir"])
         out += ["def %s" % d for d in m["defs"]]
         out += [("cprov %s" if ct else "prov %s") % n for n, ct in m["provs"]]
         out += ["req %s" % spec_text(s) for s in m["reqs"]]
@@ -152,8 +159,20 @@ def all_mentioned(s):
     return out
 
 
+def respell(rng, s):
+    """the same spec with every path written in a randomly chosen spelling"""
+    if s[0] == "path":
+        return ("path", s[1], rng.choice([0, 0, 1, 2, 3]))
+    if s[0] == "p":
+        return ("p", s[1], respell(rng, s[2]))
+    return ("o", s[1], respell(rng, s[2]))
+
+
 def alias_for(rng, n):
-    return rng.choice(FN_ALIASES if n[0] in "fg" else VAL_ALIASES)
+    base = re.split(r"[.-]", n)[-1]  # a re-exported name may carry prefixes (b-h4)
+    if base[:1] == "h":             # the harness reads the arity off the name: keep the h<n> marker
+        return base[:2] + rng.choice("xyz")
+    return rng.choice(FN_ALIASES if base[:1] in ("f", "g") else VAL_ALIASES)
 
 
 def gen_spec(rng, provs, j, weird_ok=True):
@@ -205,7 +224,7 @@ def gen_spec(rng, provs, j, weird_ok=True):
     return only(("p", rng.choice(PREFIXES), only(base, some)), some[:1])
 
 
-def gen_graph(rng, n, shape, weird):
+def gen_graph(rng, n, shape, weird, spell=False):
     mods, provs = [], []
     for k in range(n):
         if k == 0:
@@ -225,13 +244,15 @@ def gen_graph(rng, n, shape, weird):
         if targets and rng.random() < 0.15:
             targets.append(rng.choice(targets))       # the same module twice, other modifiers
         reqs = [gen_spec(rng, provs, j, weird) for j in targets]
+        if spell:
+            reqs = [respell(rng, q) for q in reqs]
         defs = rng.sample(NAMES, rng.randint(1, 4))
         if rng.random() < 0.5 and "p" not in defs:
             defs.append("p")
         pv = []
         for d in defs:
             if d != "p" and rng.random() < 0.65:
-                pv.append((d, d[0] in "fg" and rng.random() < 0.45))
+                pv.append((d, d[0] in "fgh" and rng.random() < 0.5))
         # re-export something imported by a plain / prefix-only require
         for s in reqs:
             if s[0] == "path" or (s[0] == "p" and s[2][0] == "path"):
@@ -240,16 +261,18 @@ def gen_graph(rng, n, shape, weird):
                         pv.append((nme, False))
         if not pv and rng.random() < 0.8:
             pv.append((defs[0], False))
-        mods.append({"defs": defs, "provs": pv, "reqs": reqs})
+        mods.append({"defs": defs, "provs": pv, "reqs": reqs, "dir": rng.choice(DIRS) if spell else ""})
         provs.append([q[0] for q in pv])
     return mods, provs
 
 
-def gen_requests(rng, mods, provs, nreq, weird):
+def gen_requests(rng, mods, provs, nreq, weird, spell=False):
     reqs = []
     for _ in range(nreq):
         cnt = 1 if rng.random() < 0.7 else 2
         specs = [gen_spec(rng, provs, rng.randrange(len(mods)), weird) for _ in range(cnt)]
+        if spell:
+            specs = [respell(rng, q) for q in specs]
         defs = rng.sample(NAMES, rng.randint(1, 2)) if rng.random() < 0.3 else []
         u = rng.random()
         mode = "ok" if u < 0.74 else "syntax" if u < 0.83 else "freeid" if u < 0.93 else "runtime"
@@ -280,8 +303,10 @@ def gen_cases(rng, ngraphs, max_mods, orders, tag):
         shape = shapes[gi % len(shapes)]
         n = rng.randint(2 if shape != "diamond" else 3, max_mods)
         weird = rng.random() < 0.3      # forms on which flattening and composing modifiers differ
-        mods, provs = gen_graph(rng, n, shape, weird)
-        base = gen_requests(rng, mods, provs, rng.randint(3, 6), weird)
+        # one file reached through several spellings of its path (sub-directories, ./, zz/.., symlinks)
+        spell = rng.random() < 0.5
+        mods, provs = gen_graph(rng, n, shape, weird, spell)
+        base = gen_requests(rng, mods, provs, rng.randint(3, 6), weird, spell)
         seen = set()
         for oi in range(orders):
             reqs = list(base)
@@ -434,6 +459,7 @@ def evaluate(ctx, texts, label, stats, known_ids):
         rl = real.get(cid, ["missing"])
         v = {k: variants[k].get(cid, ["missing"]) for k in variants}
         stats["cases"] += 1
+        stats["spelled"] += 1 if re.search(r"^req \S*~", t, re.M) else 0
         stats["evaluations"] += t.count("\nrequest\n")
         stats["obs"] += sum(len(l.split()) - 1 for l in rl if l.startswith("obs"))
         for l in rl:
@@ -525,7 +551,7 @@ def evaluate_quiet(ctx, texts, stats, known_ids):
 def new_stats():
     return {"cases": 0, "evaluations": 0, "obs": 0, "mangle_checked": 0, "mangle_bad": [], "status": {},
             "spec_kinds": {}, "nontrivial": set(), "class": {}, "samples": [], "known_hits": {},
-            "pending": [], "bad": [], "poke_hits": []}
+            "pending": [], "bad": [], "poke_hits": [], "spelled": 0}
 
 
 def corpus_texts():
@@ -539,11 +565,21 @@ def corpus_texts():
 
 def run(ctx):
     stats = new_stats()
+    trc, tout = C.sh(["python3", os.path.join(C.VERIF, "translate", "c14_constants.py"), C.REPO,
+                      os.path.join(C.LEAN, "SteelVerif", "C14", "GenConsts.lean")], timeout=60)
+    try:
+        facts = json.loads(tout.strip().splitlines()[-1])
+    except (ValueError, IndexError):
+        facts = {"errors": [tout[-500:]]}
+    if trc != 0:
+        ctx.violation("C14-translator.txt", "translate/c14_constants.py no longer parses modules.rs / mangle.rs:\n"
+                      + json.dumps(facts, indent=1) + "\n", no_input=True)
     pr = C.prove(ctx, "C14", ["c14driver"])
     ok, log = C.build_harness(ctx, ["c14"])
     base_cov = {"obligations": pr["obligations"], "discharged": pr["discharged"],
                 "checker_cmd": "cd lean && lake build SteelVerif.C14.Props && lake env lean SteelVerif/C14/Audit.lean",
-                "trusted_base": C.TRUSTED_BASE}
+                "trusted_base": C.TRUSTED_BASE + ["translate/c14_constants.py (regex extraction of the mangling "
+                                                  "constants, the prefix layout and try_canonicalize)"]}
     if not ok:
         ctx.violation("C14-harness-build.txt", "the harness no longer builds against /repo:\n" + log, no_input=True)
         ctx.coverage = base_cov
@@ -619,7 +655,9 @@ def run(ctx):
         "rule": "case = module graph (files on disk) + request sequence on one Engine; generated from VERIF_SEED: "
                 "chains/diamonds/stars/random DAGs, shared private+provided names, plain/only-in(+renames)/"
                 "prefix-in(nested)/mixed and non-compositional modifier nestings, contract/out, re-exports, the "
-                "same module required twice, failing requests (macro mismatch, free identifier, runtime error), "
+                "same module required twice, module files in sub-directories required through different "
+                "spellings of one path (./, dir/.., symbolic links), functions of 1-6 parameters with "
+                "higher-order contracts and violating callbacks, failing requests (macro mismatch, free identifier, runtime error), "
                 "several orders of the same requests; non-trivial = >=2 modules and at least one modifier; "
                 "distinct = different text",
         "samples": stats["samples"],
@@ -627,6 +665,8 @@ def run(ctx):
         "request_status_real": stats["status"],
         "require_spec_shapes": stats["spec_kinds"],
         "private_defines_found_under_mangled_name": stats["mangle_checked"],
+        "translated_from_source": facts,
+        "cases_with_respelled_paths": stats["spelled"],
         "axioms": pr.get("axioms", {}),
         "proof_failures": ["%s: %s" % f for f in pr["failed"]],
     })
